@@ -185,6 +185,23 @@ def generate(streams: core.Streams, tier: str) -> dict:
         pipeline["transformations"].append({"type": "hashes_fields", "field_prefix": "File",
                                             "valid_hash_algos": ["MD5", "SHA1", "SHA256", "SHA512"]})
         kinds.add("hashes_field_with_unknown_algorithm")
+    if gen.chance(w, 0.12):
+        # several misspelled modifiers in one key: the load error names one of them
+        docs.append({"title": "Rbadmods", "logsource": {"product": "windows"},
+                     "detection": {"sel": {"CommandLine|contain|al|windashes|bas64": "x"}, "condition": "sel"}})
+        kinds.add("several_unknown_modifiers_in_one_key")
+    pipeline2 = None
+    if pipeline is not None and gen.chance(w, 0.15):
+        # a second pipeline added to the first one ('+'): both define the same list variable, a rule expands it
+        pipeline.setdefault("vars", {})["admins"] = ["root", "adm*", "beta", "gamma"]
+        pipeline2 = {"name": "second", "priority": 0, "vars": {"admins": ["zeta", "alpha", "mid", "omega", "delta"]},
+                     "transformations": [{"type": "value_placeholders", "include": ["admins"]}]}
+        rules_only = [d for d in docs if "detection" in d and "title" in d and not d["title"].startswith("Rbad")]
+        victim = gen.pick(w, rules_only)
+        victim["detection"]["phadm"] = {"User|expand": "%admins%"}
+        first = next(k for k in victim["detection"] if k not in ("condition", "phadm"))
+        victim["detection"]["condition"] = f"{first} or phadm"
+        kinds.add("list_variable_defined_by_two_added_pipelines")
     n_filters = sum(1 for d in docs if "filter" in d)
     if not forced and n_filters >= 2 and gen.chance(f, 0.6):
         forced = ["zzzzzzzzzz"] * 12  # every filter application draws the same prefix first
@@ -199,7 +216,7 @@ def generate(streams: core.Streams, tier: str) -> dict:
         configs.append(c)
     return {"cls": gen.pick(s, ["SimBackend", "SimBackendNE", "SimBackendIn"]),
             "format": fmt_force or gen.pick(s, ["default", "default", "alt", "st"]),
-            "validate": gen.chance(s, 0.3), "documents": docs, "pipeline": pipeline,
+            "validate": gen.chance(s, 0.3), "documents": docs, "pipeline": pipeline, "pipeline2": pipeline2,
             "configs": configs, "kinds": sorted(kinds)}
 
 
@@ -246,7 +263,7 @@ def execute(scenario: dict) -> dict:
     try:
         scpath = os.path.join(scratch, "scenario.json")
         with open(scpath, "w") as fh:
-            json.dump({k: sc[k] for k in ("cls", "format", "validate", "documents", "pipeline")}, fh)
+            json.dump({k: sc.get(k) for k in ("cls", "format", "validate", "documents", "pipeline", "pipeline2")}, fh)
         outs = [_start(scpath, cfg) for cfg in sc["configs"]]
     finally:
         shutil.rmtree(scratch, ignore_errors=True)
@@ -339,6 +356,10 @@ def shrink(sc: dict) -> Iterable[dict]:
         del c["documents"][i]
         if c["documents"]:
             yield c
+    if sc.get("pipeline2") is not None:
+        c = copy.deepcopy(sc)
+        c["pipeline2"] = None
+        yield c
     if sc.get("pipeline") is not None:
         c = copy.deepcopy(sc)
         c["pipeline"] = None
